@@ -11,6 +11,7 @@ import (
 	"path/filepath"
 	"sort"
 	"strings"
+	"time"
 )
 
 // Stream describes one correspondence stream: generation, the real code, the oracle.
@@ -23,9 +24,10 @@ type Stream struct {
 	Nontrivial func(op M) bool
 	OpProps    func(op M) []string // properties a correspondence difference on this op concerns
 	Reps       int
-	NoModel    func(op M) bool // operations that only the oracle judges
-	Enrich     func(op M) M    // adds what the model needs (derived from the op alone) just before piping
-	NoShrink   bool            // operations are opaque payloads: report them as generated
+	NoModel    func(op M) bool     // operations that only the oracle judges
+	ExecBatch  func(ops []M) []any // optional: executes all generated operations at once (child processes)
+	Enrich     func(op M) M        // adds what the model needs (derived from the op alone) just before piping
+	NoShrink   bool                // operations are opaque payloads: report them as generated
 }
 
 type Case struct {
@@ -128,13 +130,44 @@ func Run(s *Stream, g *G, tier string, seed int64, modelBin string, corpus []M, 
 	if reps == 0 {
 		reps = 3
 	}
-	execC := func(op M) any { rep.ImplCalls++; return canon(s.Exec(Normalize(op).(M))) }
+	// every call of the real code runs under a watchdog: an operation that does not return is a
+	// finding of its own ("never hangs"), and it must not stall the check. After the first hang the
+	// remaining operations of the run are not started (the stuck goroutine keeps a core busy).
+	hung := false
+	guarded := func(op M) any {
+		if hung {
+			return "skipped-after-hang"
+		}
+		ch := make(chan any, 1)
+		go func() { ch <- s.Exec(Normalize(op).(M)) }()
+		select {
+		case r := <-ch:
+			return r
+		case <-time.After(45 * time.Second):
+			hung = true
+			for _, p := range s.OpProps(op) {
+				rep.Cases = append(rep.Cases, Case{Property: p, Kind: "oracle", Stream: s.Name, Op: op, Impl: "hang",
+					Messages: []string{"the operation did not return within 45 s (hang)"}})
+			}
+			return "hang"
+		}
+	}
+	execC := func(op M) any { rep.ImplCalls++; return canon(guarded(op)) }
 	impl := make([]any, len(ops))
 	seen := map[string]bool{}
+	var pre []any
+	if s.ExecBatch != nil {
+		pre = s.ExecBatch(ops)
+	}
 	for i, op := range ops {
 		rep.Evaluations++
 		rep.Dist["op:"+asStr(op["op"])]++
-		impl[i] = execC(op)
+		if pre != nil && i < len(pre) {
+			rep.ImplCalls++
+			impl[i] = canon(pre[i])
+		} else {
+			impl[i] = execC(op)
+		}
 		for k := 1; k < reps; k++ {
 			again := execC(op)
 			if !Equal(impl[i], again) {
@@ -189,6 +222,9 @@ func Run(s *Stream, g *G, tier string, seed int64, modelBin string, corpus []M, 
 				}
 				continue
 			}
+			if sres, isS := impl[i].(string); isS && (sres == "hang" || sres == "skipped-after-hang") {
+				continue // reported by the watchdog
+			}
 			rep.Compared++
 			mc := canon(mv)
 			if !Equal(mc, impl[i]) {
@@ -234,6 +270,9 @@ func Run(s *Stream, g *G, tier string, seed int64, modelBin string, corpus []M, 
 	// oracles
 	if s.Oracle != nil {
 		for i, op := range ops {
+			if sres, isS := impl[i].(string); isS && (sres == "hang" || sres == "skipped-after-hang") {
+				continue // reported by the watchdog
+			}
 			fs := safeOracle(s, op, impl[i], execC)
 			if len(fs) == 0 {
 				continue
